@@ -1,6 +1,7 @@
 (* C11 — WebSocketDataQueue: nothing is lost, duplicated or reordered between feed_data and read(), whatever the
    interleaving of feeds, reads and cancellations. *)
-From AV Require Import Lib.Base Model.Ws Model.WsQueue.
+From AV Require Import Lib.Base Generated.WsCodecGen Model.Ws Model.WsQueue.
+From Coq Require Import ZifyBool ZifyN.
 Open Scope N_scope.
 
 Definition qinv (st : qstate) : Prop := q_got st ++ q_buf st = q_fed st.
@@ -30,3 +31,38 @@ Proof. apply queue_exactly_once. reflexivity. Qed.
 Lemma cancel_after_wake_keeps_message m m2 : exists st,
   qrun qinit [QRead; QFeed m; QCancel; QRead; QFeed m2; QReturn] = Some st /\ q_got st = [m] /\ q_buf st = [m2].
 Proof. eexists. cbn. repeat split. Qed.
+
+(* ---- read flow control: an empty queue is never left paused ----------------------------------------------------- *)
+Definition sumN (l : list N) : N := fold_right N.add 0 l.
+
+Lemma sumN_app a b : sumN (a ++ b) = sumN a + sumN b.
+Proof. induction a as [|x a IH]; cbn [sumN fold_right app]; [reflexivity|]. fold (sumN (a ++ b)) (sumN a). lia. Qed.
+
+Definition flinv (st : flstate) : Prop := fl_size st = sumN (fl_buf st) /\ (fl_buf st = [] -> fl_paused st = false).
+
+Lemma flstep_inv lim st e st' : 0 < lim -> flinv st -> flstep lim st e = Some st' -> flinv st'.
+Proof.
+  intros L (S & P) ST. destruct e as [sz|]; cbn [flstep] in ST.
+  - injection ST as <-. cbn [fl_buf fl_size fl_paused]. split.
+    + rewrite sumN_app, S. cbn. lia.
+    + intro E. destruct (fl_buf st); discriminate E.
+  - destruct (fl_buf st) as [|sz b] eqn:B; [discriminate|]. injection ST as <-. cbn [fl_buf fl_size fl_paused]. split.
+    + rewrite S. cbn [sumN fold_right]. fold (sumN b). lia.
+    + intros ->. rewrite S. cbn [sumN fold_right]. unfold queue_resume_test.
+      destruct (sz + 0 - sz <? lim) eqn:E; [reflexivity|lia].
+Qed.
+
+Theorem drained_queue_is_not_paused lim evs : forall st st',
+  0 < lim -> flinv st -> flrun lim st evs = Some st' -> flinv st'.
+Proof.
+  induction evs as [|e evs IH]; intros st st' L I R; cbn [flrun] in R.
+  - injection R as <-. exact I.
+  - destruct (flstep lim st e) as [s1|] eqn:E; [|discriminate]. eapply IH; [exact L| |exact R]. eapply flstep_inv; eassumption.
+Qed.
+
+Corollary drained_from_init lim evs st :
+  0 < lim -> flrun lim flinit evs = Some st -> fl_buf st = [] -> fl_paused st = false /\ fl_size st = 0.
+Proof.
+  intros L R E. destruct (drained_queue_is_not_paused lim evs flinit st L ltac:(split; reflexivity) R) as (S & P).
+  split; [exact (P E)|]. rewrite S, E. reflexivity.
+Qed.
